@@ -622,21 +622,21 @@ def main():
                 searched += 1
                 bad = py_wf(lines, need_group=False)
                 if bad:
-                    found.append(dict(property=CID, what="real graph violates the invariant after a sequence of interface calls",
+                    found.insert(0, dict(property=CID, what="real graph violates the invariant after a sequence of interface calls",
                                       run=name, seq=seq, ops=[o[3:] if o.startswith("op ") else o for o in ops],
                                       observed_state=lines, violations=bad[:10], expected="both directions of every relation agree"))
                     break
-            if found or time.time() - t0 > budget:
+            if any("violates the invariant after" in x["what"] for x in found) or time.time() - t0 > budget:
                 break
         for f in files:
-            if len(found) >= 3 or time.time() - t0 > budget:
+            if sum(1 for x in found if "pass boundary" in x["what"]) >= 2 or time.time() - t0 > budget:
                 break
             for tag, lines in blocks_t2(f):
                 searched += 1
                 bad = py_wf(lines, need_group=True)
                 if bad:
                     did = tag.split()[0].rsplit(".", 1)
-                    found.append(dict(property=CID, what="real graph violates the invariant at a construction step / pass boundary",
+                    found.insert(0, dict(property=CID, what="real graph violates the invariant at a construction step / pass boundary",
                                       design=did[0], variant=did[1] if len(did) > 1 else "?", boundary=tag,
                                       program=prog.get(did[0], ([], []))[0], violations=bad[:10], dump=lines[:400],
                                       expected="both directions of every relation agree, every node in one group"))
